@@ -31,7 +31,7 @@ import (
 //           its start value at any quiescent point
 // ---------------------------------------------------------------------------
 
-var c20ops = []string{"connect", "disconnect", "req-ok", "req-unsupported", "req-invalid", "req-multikey", "req-unfollowable-redirect", "move-group", "start-migration", "node-down", "node-up", "reset-backend", "remove-all-hosts", "add-hosts", "disconnect-with-request-in-flight", "cut-off-pipeline", "replace-hosts"}
+var c20ops = []string{"connect", "disconnect", "req-ok", "req-unsupported", "req-invalid", "req-multikey", "req-unfollowable-redirect", "move-group", "start-migration", "node-down", "node-up", "reset-backend", "remove-all-hosts", "add-hosts", "disconnect-with-request-in-flight", "cut-off-pipeline", "replace-hosts", "req-slow"}
 
 type c20snap struct {
 	cxTotal, cxDestroy, cxActive uint64
@@ -148,6 +148,20 @@ func c20body(depth int) func() {
 					cur.Close()
 					sched.WaitQuiescent()
 					m0.Stalled = false
+				}
+			case "req-slow":
+				// the node takes 120 ms to answer (a successful, slow request), and a local command whose reply has to
+				// wait behind it
+				if cur != nil && !m0.Down {
+					m0.Stalled = true
+					cur.Send(append(resp.Encode(resp.Cmd("GET", k0)), resp.Encode(resp.Cmd("PING"))...))
+					sched.WaitQuiescent()
+					sched.AdvanceTime(120 * 1000 * 1000)
+					sched.WaitQuiescent()
+					m0.Stalled = false
+					sched.WaitQuiescent()
+					cur.Read()
+					cur.Read()
 				}
 			case "req-multikey":
 				do(cur, resp.Encode(resp.Cmd("MGET", k0, k1)))
